@@ -137,6 +137,49 @@ pub fn run(ctx: &Ctx) -> Result<()> {
 		if finite { match strict_parse(&text) { Some(j) if j == to_j(&v) => {} other => col.violation("not-standard-json", &format!("json.val {}", cps(&text)), &format!("json.val {}", cps(&text)), &format!("strict parser: {:?}", other.is_some())) } }
 		if text.len() < 600 { col.out.line(&format!("json.val {} => ok:{}", cps(&text), cps(&text))); }
 	}
+	// (5) TileJSON merge and narrowing against the Coq model (Model/TileJson.v): documents with integer bounds / center, byte, string
+	//     and list values (also zoom limits of the wrong type), merged pairwise and limited by boxes and zoom bounds
+	{
+		use versatiles_core::tilejson::TileJSON; use versatiles_core::json::JsonValue; use versatiles_core::types::GeoBBox;
+		let hexs = |s: &str| -> String { if s.is_empty() { "-".into() } else { hex(s.as_bytes()) } };
+		let gen_doc = |rng: &mut Rng| -> String {
+			let mut o: Vec<String> = Vec::new();
+			if rng.chance(1, 2) { let (a, b) = (rng.below(360) as i64 - 180, rng.below(360) as i64 - 180); let (c, d) = (rng.below(180) as i64 - 90, rng.below(180) as i64 - 90); o.push(format!("\"bounds\":[{},{},{},{}]", a.min(b), c.min(d), a.max(b), c.max(d))); }
+			if rng.chance(1, 3) { o.push(format!("\"center\":[{},{},{}]", rng.below(360) as i64 - 180, rng.below(180) as i64 - 90, rng.below(20))); }
+			for key in ["minzoom", "maxzoom"] { match rng.below(8) { 0 | 1 | 2 => {} 3 => o.push(format!("\"{key}\":\"{}\"", rng.below(9))), 4 => o.push(format!("\"{key}\":[\"x\"]")), _ => o.push(format!("\"{key}\":{}", rng.pick(&[0u8, 1, 2, 3, 5, 9, 14, 22, 255]))) } }
+			for key in ["name", "description", "x", "tiles", "fillzoom", "tilejson", "Ünï"] { match rng.below(6) { 0 => o.push(format!("\"{key}\":{}", jstr(*rng.pick(&["a", "", "b c", "ü✓", "3.0.0"])))), 1 => o.push(format!("\"{key}\":[{}]", (0..rng.below(3)).map(|_| jstr(*rng.pick(&["u", "v w", ""]))).collect::<Vec<_>>().join(","))), 2 => o.push(format!("\"{key}\":{}", rng.below(256))), _ => {} } }
+			format!("{{{}}}", o.join(","))
+		};
+		let show = |t: &TileJSON| -> String {
+			let b = t.bounds.as_ref().map_or("-".to_string(), |b| format!("{},{},{},{}", b.0 as i64, b.1 as i64, b.2 as i64, b.3 as i64));
+			let c = t.center.as_ref().map_or("-".to_string(), |c| format!("{},{},{}", c.0 as i64, c.1 as i64, c.2));
+			let mut vs: Vec<String> = t.values.iter_json_values().map(|(k, v)| format!("{}:{}", hexs(&k), match v { JsonValue::Number(n) => format!("B{}", n as u64), JsonValue::String(x) => format!("S{}", hexs(&x)), JsonValue::Array(a) => format!("L{}", a.0.iter().map(|e| match e { JsonValue::String(x) => hexs(x), _ => "?".into() }).collect::<Vec<_>>().join(".")), _ => "?".into() })).collect();
+			vs.sort();
+			format!("{b};{c};{}", if vs.is_empty() { "-".to_string() } else { vs.join("&") })
+		};
+		let mut done = 0;
+		while done < (if ctx.thorough { 4000 } else { 500 }) {
+			let (ta, tb) = (gen_doc(&mut rng), gen_doc(&mut rng));
+			let (Ok(a), Ok(b)) = (TileJSON::try_from(ta.as_str()), TileJSON::try_from(tb.as_str())) else { continue };
+			done += 1;
+			let mut m = a.clone();
+			let r = guarded(|| { let mut m2 = m.clone(); m2.merge(&b).map(|_| m2) });
+			let txt = match r { Ok(Ok(m2)) => { m = m2; show(&m) } Ok(Err(_)) => "err".into(), Err(_) => "panic".into() };
+			col.out.line(&format!("tj.merge {} {} => {txt}", show(&a), show(&b)));
+			// merged into the default document, as the tar and directory readers do
+			let mut d = TileJSON::default();
+			let txt = match guarded(|| { let mut d2 = d.clone(); d2.merge(&a).map(|_| d2) }) { Ok(Ok(d2)) => { d = d2; show(&d) } Ok(Err(_)) => "err".into(), Err(_) => "panic".into() };
+			col.out.line(&format!("tj.merge {} {} => {txt}", show(&TileJSON::default()), show(&a)));
+			// narrowing
+			let bb = if rng.chance(2, 3) { let (x, y) = (rng.below(360) as i64 - 180, rng.below(360) as i64 - 180); let (u, v) = (rng.below(180) as i64 - 90, rng.below(180) as i64 - 90); Some((x.min(y), u.min(v), x.max(y), u.max(v))) } else { None };
+			let zmin = if rng.chance(2, 3) { Some(rng.below(12) as u8) } else { None }; let zmax = if rng.chance(2, 3) { Some(rng.below(24) as u8) } else { None };
+			let mut l = a.clone();
+			if let Some(q) = bb { l.limit_bbox(GeoBBox(q.0 as f64, q.1 as f64, q.2 as f64, q.3 as f64)); }
+			if let Some(z) = zmin { l.limit_min_zoom(z); } if let Some(z) = zmax { l.limit_max_zoom(z); }
+			col.out.line(&format!("tj.limit {} {} {} {} => {}", show(&a), bb.map_or("-".to_string(), |q| format!("{},{},{},{}", q.0, q.1, q.2, q.3)), zmin.map_or("-".to_string(), |z| z.to_string()), zmax.map_or("-".to_string(), |z| z.to_string()), show(&l)));
+			let _ = (m, d);
+		}
+	}
 	crate::formats::run_meta(ctx, &mut col)?;
 	col.finish()
 }
